@@ -65,7 +65,16 @@ Inductive case :=
       Write calls, number of bytes and checksum of what went out on the stream, and whether the FIN followed;
       [ret] = (id, length, checksum of everything after the id) of the returned message; [err] = error class, 0 = none *)
 | CDoq (qid qn qseed : N) (gs : list seg) (sizes : list nat)
-       (sent : N * N * N) (fin : bool) (ret : option (N * N * N)) (err : N).
+       (sent : N * N * N) (fin : bool) (ret : option (N * N * N)) (err : N)
+  (** ServeTCP after a reply whose write failed ([failed] = the harness saw that write fail): rounds of queries
+      on one pipelined connection whose replies (all of one size class of the byte pool) are packed before any
+      of them is written. Per round: the expected (id, len, checksum) of the reply to every query sent, what an
+      independent framer read from the connection, and the Write calls the server made in that round *)
+| CTcpRounds (failed : bool) (rounds : list (list (N * N * N) * list (N * N * N) * N))
+  (** ServeDoQ with overlapping streams on one connection (every query is in its handler before the first
+      handler returns). Per stream: (len, checksum) of the answer to the query sent on THAT stream, the frames
+      an independent framer read from it up to the end of the stream, and whether the stream ended with a clean FIN *)
+| CDoqServer (streams : list ((N * N) * list (N * N) * bool)).
 
 Definition pair_eqb (a b : N * N) : bool := (fst a =? fst b) && (snd a =? snd b).
 Definition triple_eqb (a b : N * N * N) : bool :=
@@ -106,6 +115,15 @@ Fixpoint ins (x : N * N * N) (l : list (N * N * N)) :=
   end.
 Definition sort3 (l : list (N * N * N)) := fold_right ins [] l.
 
+(** The server side of the framing: every query gets exactly ONE frame, the packing of its own answer, written
+    in one Write (a round: the frames read are a permutation of the expected ones and there was one Write per
+    frame; a DoQ stream: exactly the one expected frame, then FIN). *)
+Definition round_ok (r : list (N * N * N) * list (N * N * N) * N) : bool :=
+  let '(e, o, w) := r in
+  list_eqb triple_eqb (sort3 e) (sort3 o) && (w =? N.of_nat (length e)).
+Definition stream_ok (x : (N * N) * list (N * N) * bool) : bool :=
+  let '(e, o, fin) := x in list_eqb pair_eqb o [e] && fin.
+
 Definition agree (c : case) : bool :=
   match c with
   | CStream gs sizes obs err =>
@@ -131,6 +149,8 @@ Definition agree (c : case) : bool :=
     let '(r, e) := model_doq qid gs sizes in
     (qn + 2 <=? max_msg_size_copy) && triple_eqb sent (doq_sent qn qseed) && fin
     && ret_eqb r ret && (e =? err)
+  | CTcpRounds _ rounds => forallb round_ok rounds
+  | CDoqServer streams => forallb stream_ok streams
   end.
 
 (** The property's own oracle, stated without the reader model where that is
@@ -193,6 +213,14 @@ Definition spec (c : case) : bool :=
     && (if (2 <=? len d) && (13 <=? l) && (l + 2 <=? len d)
         then ret_eqb ret (Some (qid, l, checksum (firstn (N.to_nat (l - 2)) (skipn 4 d)))) && (err =? 0)
         else ret_eqb ret None && negb (err =? 0))
+  | CTcpRounds _ rounds =>
+    (* every query sent gets its own reply as one intact frame, once: per round the frames read, sorted by id,
+       are exactly the expected ones (how many Write calls it took is the model's business, not the property's) *)
+    forallb (fun r => let '(e, o, _) := r in list_eqb triple_eqb (sort3 e) (sort3 o)) rounds
+  | CDoqServer streams =>
+    (* a stream carries exactly one frame, the answer to the query sent on it, and then ends *)
+    forallb (fun x => let '(e, o, fin) := x in
+               match o with [f] => pair_eqb f e | _ => false end && fin) streams
   end.
 
 (** A case is non-trivial when it exercises a split header, a multi-frame
@@ -213,4 +241,7 @@ Definition nontrivial (c : case) : bool :=
     | [SFrame n _] => boundary n || existsb (fun k => (k <=? 1)%nat) sizes
     | _ => true
     end
+  | CTcpRounds failed rounds =>
+    failed && existsb (fun r => (2 <=? length (fst (fst r)))%nat) rounds
+  | CDoqServer streams => (2 <=? length streams)%nat
   end.
